@@ -2343,3 +2343,20 @@ V(id='c08-numeral-trusts-size-hint', prop='C08', file='mpmath/libmp/libintmath.p
 V(id='c08-numeral-size-correction-too-late', prop='C08', file='mpmath/libmp/libintmath.py',
   old="    if bc > 3000:\n        size = max(size, int(bc / math.log(base, 2)) + 1)\n", new="    if bc > 30000:\n        size = max(size, int(bc / math.log(base, 2)) + 1)\n",
   expect='fire:W-R6:numeral_python')
+
+# ---- seeding round 6: C-R2x, C-R17 (rectangles), re-rounded operand of `in` ----
+V(id='c14-percent-halfwidth-from-upper-only', prop='C14', file='mpmath/libmp/libmpi.py',
+  old="        y = mpf_mul(MAX(mpf_abs(xa), mpf_abs(xb)), y, wp, round_ceiling)", new="        y = mpf_mul(mpf_abs(xb), y, wp, round_ceiling)",
+  expect='fire:C-R2x:mpi_from_str_a_b')
+V(id='c14-benign-percent-halfwidth-max-swapped', prop='C14', file='mpmath/libmp/libmpi.py',
+  old="        y = mpf_mul(MAX(mpf_abs(xa), mpf_abs(xb)), y, wp, round_ceiling)", new="        y = mpf_mul(MAX(mpf_abs(xb), mpf_abs(xa)), y, wp, round_ceiling)",
+  expect='silent')
+V(id='c15-gamma-strip-one', prop='C15', file='mpmath/libmp/libmpi.py',
+  old="gamma_mono_imag_a = from_float(-1.1)\ngamma_mono_imag_b = from_float(1.1)", new="gamma_mono_imag_a = fnone\ngamma_mono_imag_b = fone",
+  expect='fire:C-R17')
+V(id='c15-benign-gamma-strip-wider', prop='C15', file='mpmath/libmp/libmpi.py',
+  old="gamma_mono_imag_a = from_float(-1.1)\ngamma_mono_imag_b = from_float(1.1)", new="gamma_mono_imag_a = from_float(-1.25)\ngamma_mono_imag_b = from_float(1.25)",
+  expect='silent')
+V(id='c16-contains-rerounded-container', prop='C16', file='mpmath/ctx_iv.py',
+  old="        return (self.a <= t.a) and (t.b <= self.b)", new="        s = +self\n        return (s.a <= t.a) and (t.b <= s.b)",
+  expect='fire:F-R4:__contains__')
